@@ -163,6 +163,10 @@ def case(draw, models=MODELS, nmax=50, nmin=2, extreme=False):
     else:
         # several genealogies with the same sampling times evaluated in one call (node heights [B, 2n-1])
         c["hbatch"] = [draw(logu(0.3, 3.0)) for _ in range(draw(st.sampled_from([0, 0, 1, 2, 3])))]
+    c["as_intervals"] = route == "times" and draw(st.sampled_from([False, False, True]))
+    # library use under torch's float32 default with explicitly float64 Parameters (see tt.default_dtype)
+    # only through the times / intervals form: a tree model reads its sampling dates in the default dtype
+    c["f32default"] = route == "times" and draw(st.sampled_from([False, False, True]))
     return c
 
 
@@ -249,6 +253,15 @@ def spec_of(c, theta_rows=None, times_scale=None):
         spec["grid"] = p["grid"] if c.get("grid_as_list", True) else tt.P("grid", p["grid"])
     if "cutoff" in p:
         spec["cutoff"] = p["cutoff"]
+    if c["route"] == "times" and c.get("as_intervals"):
+        # the other JSON form: events in time order with the waiting times between them
+        ev = sorted([(t, 1) for t in g["s"]] + [(t, 0) for t in g["c"]])
+        tt_ = [t for t, _ in ev]
+        spec["intervals"] = [b - a for a, b in zip(tt_[:-1], tt_[1:])]
+        spec["events"] = [e for _, e in ev]
+        if tt_[0] != 0.0:
+            raise AssertionError("harness: the most recent sample is at time 0")
+        return [spec]
     if c["route"] == "times":
         times = [g["s"][i] for i in c["perm_s"]] + [g["c"][i] for i in c["perm_c"]]
         events = [1] * n + [0] * (n - 1)
@@ -273,7 +286,7 @@ def spec_of(c, theta_rows=None, times_scale=None):
 
 def evaluate(c):
     dic = {}
-    for el in spec_of(c):
+    for el in (tt.explicit64(spec_of(c)) if c.get("f32default") else spec_of(c)):
         tt.build(el, dic)
     return dic["coal"], dic
 
@@ -286,6 +299,12 @@ def effective_genealogy(c):
     """sampling times as the model sees them: with calendar dates they are max(date) - date in double
     arithmetic, which differs from the generated value by a rounding error of the size of an ulp of the year"""
     g = c["g"]
+    if c.get("route") == "times" and c.get("as_intervals"):
+        # the model accumulates the waiting times again
+        ev = sorted([(t, 1) for t in g["s"]] + [(t, 0) for t in g["c"]])
+        tt_ = [t for t, _ in ev]
+        acc = np.cumsum([0.0] + [b - a for a, b in zip(tt_[:-1], tt_[1:])]).tolist()
+        return {"s": [t for t, (_, e) in zip(acc, ev) if e == 1], "c": [t for t, (_, e) in zip(acc, ev) if e == 0]}
     if c.get("route") == "tree" and c.get("calendar") and max(g["s"]) > 0:
         top = 1990.0 + max(g["s"])
         dates = [top - x for x in g["s"]]
@@ -318,8 +337,15 @@ def classify(c):
 
 
 def body(c):
+    with tt.default_dtype(torch.float32 if c.get("f32default") else torch.float64):
+        return _body(c)
+
+
+def _body(c):
     nt, key, labels, tags = classify(c)
-    res = Res(nontrivial=nt, key=key, labels=labels, tags=tags)
+    labels = labels + (("intervals_form",) if c.get("as_intervals") else ()) + (("default_dtype_float32",) if c.get("f32default") else ())
+    tags = dict(tags, f32default=bool(c.get("f32default")), intervals=bool(c.get("as_intervals")))
+    res = Res(nontrivial=nt, key=key + (bool(c.get("as_intervals")), bool(c.get("f32default"))), labels=labels, tags=tags)
     g, p = effective_genealogy(c), c["p"]
     model, dic = evaluate(c)
     if c.get("batch") and c["route"] == "times":
@@ -380,12 +406,15 @@ def batched_heights(res, c, g, p, model, nh, v0):
     n = len(g["s"])
     base = arr(nh).reshape(-1)
     where = {}
+    slack = 1e-12 * max(1.0, max(g["c"]))
     for pos, x in enumerate(base):
         for j, t in enumerate(g["c"]):
-            if x == t:
+            if abs(x - t) <= slack and j not in where.values():
                 where[pos] = j
+                break
     if len(where) != n - 1:
-        raise AssertionError("harness: cannot locate the coalescent times among the node heights")
+        # the event times the model holds are not the specified ones
+        return res.fail("node_heights_differ", {"node_heights": base.tolist(), "coalescent_times": g["c"], "sampling_times": g["s"]})
     grid = grid_of(p)
     sep = 1e-6 * max(1.0, max(g["c"]))
     rows, refs = [base], [(v0, 0.0)]
